@@ -2,6 +2,7 @@ package ecs
 
 import (
 	"fmt"
+	"math"
 	"unsafe"
 )
 
@@ -164,6 +165,11 @@ func (q *Query) relationUnchecked(comp ID) Entity {
 func (q *Query) Step(step int) bool {
 	if step <= 0 {
 		panic("step size must be positive")
+	}
+	if uint64(step) > math.MaxUint32 {
+		// More than any query can hold. Clamp, as the conversion to uint32 below would wrap around.
+		maxStep := uint32(math.MaxUint32)
+		step = int(maxStep)
 	}
 	var ok bool
 	for {
@@ -417,6 +423,10 @@ func (q *Query) countEntities() int {
 func (q *Query) entityAt(index int) Entity {
 	if index < 0 {
 		panic("can't get entity at negative index")
+	}
+	if uint64(index) > math.MaxUint32 {
+		// More than any query can hold. The conversion to uint32 below would wrap around.
+		panic(fmt.Sprintf("query index out of range: index %d, length %d", index, q.Count()))
 	}
 	var count uint32 = 0
 	idx := uint32(index)
